@@ -492,7 +492,6 @@ impl S3 for FileSystem {
         });
 
         let size = copy_bytes(stream, file_writer.writer()).await?;
-        file_writer.done().await?;
 
         let md5_sum = hex(md5_hash.finalize());
 
@@ -509,6 +508,9 @@ impl S3 for FileSystem {
         if checksum.checksum_sha256 != input.checksum_sha256 {
             return Err(s3_error!(BadDigest, "checksum_sha256 mismatch"));
         }
+
+        // commit the object only after its checksums have been verified
+        file_writer.done().await?;
 
         debug!(path = %object_path.display(), ?size, %md5_sum, ?checksum, "write file");
 
